@@ -27,6 +27,13 @@ CLAIMED['C03'] = dict(design='2/C03', text='partial_evaluate of Function/Linear/
     'into first fixed part / second fixed part / remaining part / absent, symbolic coefficients and values; also: no fixed id is mentioned afterwards, returned ids '
     'are fixed ids that occurred, fixed values are recorded on the decision variables, two-step fixing equals one-step fixing.',
     note='R-model with magnitudes in {0} u [2^-6,2^6]; equality up to the documented epsilon-dropping allowance; in-bound states; library models trusted and validated natively each run.')
+CLAIMED['C04'] = dict(design='2/C04', text='Function::substitute is executed symbolically for every small f (<=3 monomials, degree<=2, ids over {0,1,2}) and replacement maps '
+    'with 1..2 entries of degree<=2 that may mention replaced variables; z3 proves coefficient-wise agreement with the driver-built simultaneous composition. '
+    'eval_dependencies is executed for every directed dependency graph on <=3 (quick) / 4 (thorough) dependent variables, every iteration order of the dependency '
+    'HashMap and base variable present/absent: Ok with the right values iff acyclic and grounded, Err otherwise, always within the step budget. '
+    'Instance::substitute (one step and a two-step chain) followed by evaluate is compared with the original evaluated at the implied full assignment.',
+    note='R-model with bounded coefficient magnitudes; HashMap order modelled as an arbitrary permutation; replacement maps with 3-4 entries are outside the bound; '
+    'library models trusted and validated natively each run.')
 NOT_APPLICABLE = {
     'C20': 'artifact round-trip lives in ocipkg/tar/sha2/serde_json/chrono and the file system: none of it is in the crate MIR and all of it is foreign/IO under Kani; a model would verify the model, not the code',
 }
